@@ -7,6 +7,7 @@ from collections import deque
 from typing import Any, Dict, List, Optional, Tuple
 
 from .pipeline import Built, Edge, state_key
+from . import rt
 from .rt import TracedAsync, TracedSync, attach, ids, project
 
 from xstate_statemachine import helpers as pure_api  # noqa: E402
@@ -43,7 +44,7 @@ def bfs_paths(edges: List[Edge]) -> Dict[str, List[Edge]]:
         while dq:
             k = dq.popleft()
             for e in succ.get(k, []):
-                if e.to["err"]:
+                if e.dirty:
                     continue
                 k2 = state_key(e.mi, e.to)
                 if k2 not in paths:
@@ -107,6 +108,7 @@ async def _quiesce(interp, budget: int = 10000) -> bool:
 
 async def _run_async(b: Built, steps: List[dict]):
     b.ctl.reset()
+    rt.CURRENT["ctl"] = b.ctl
     interp = attach(TracedAsync(b.machine, b.ctl), b.ctl, out_tag)
     res = []
     for st in steps:
